@@ -493,8 +493,11 @@ class VectorT {
 
         /// compute L1 (Manhattan) norm
         Scalar l1_norm() const {
-            return std::accumulate(
-                    values_.cbegin() + 1, values_.cend(), values_[0]);
+            return std::accumulate(values_.cbegin() + 1, values_.cend(),
+                    std::abs(values_[0]),
+                    [](const Scalar &l, const Scalar &r) {
+                        return l + std::abs(r);
+                    });
         }
 
         /// compute l8_norm
@@ -539,7 +542,8 @@ class VectorT {
 
         /// return arithmetic mean
         Scalar mean() const {
-            return l1_norm()/DIM;
+            return std::accumulate(
+                    values_.cbegin() + 1, values_.cend(), values_[0]) / DIM;
         }
 
         /// return absolute arithmetic mean
